@@ -100,6 +100,7 @@ def handleJudge (j : Json) : R Json := do
     ("c03", .bool (LimeModel.ServerSpec.okRev c rev)),
     ("c10", .bool (LimeModel.ServerSpec.encRev c rev)),
     ("c07", .bool (LimeModel.ServerSpec.orderRev c rev)),
+    ("c09", .bool (LimeModel.ServerSpec.appliedRev rev)),
     ("c07answered", .bool (LimeModel.ServerSpec.answeredRev c rev)),
     ("phase", .str (reprStr (LimeModel.ServerSpec.phaseOf c rev)))]
 
